@@ -35,7 +35,7 @@ def run(ck: Check) -> None:
     d = impl.scratch_dir()
     fn = os.path.join(d, "md.json")
     ck.correspondences.add("corr:file-operations/bytes+value+verdicts")
-    n = 160 if ck.thorough else 40
+    n = ck.n(160, 40)
     ser_cases, ser_expect = [], []
     for i in range(n):
         ks = [gen.key(j) for j in rng.sample(range(10), rng.randint(1, 4))]
